@@ -508,8 +508,8 @@ theorem layoutStable_tsig (t : Option Tsig) (mac : Option (List UInt8)) : ∀ r 
     OPT and TSIG records: names (owners, QNAMEs and the names inside RDATA, decompressed) equal to
     those given up to ASCII case, octet for octet when written outside `Standard` mode; TYPE, CLASS,
     TTL and all other RDATA octets as given. -/
-theorem finish_refines (macFn : Tsig → List UInt8 → List UInt8) (s : State) (b : Body) (hI : I s)
-    (hL : CLay P s b) (hT : ∀ r ∈ b.an ++ b.ns ++ b.ar, LayoutStable r)
+theorem finish_refines (macFn : Tsig → List UInt8 → List UInt8) (s : State) (b : Body) (mb : MBody) (hI : I s)
+    (hL : CLay P s b mb) (hT : ∀ r ∈ b.an ++ b.ns ++ b.ar, LayoutStable r)
     (m : Bytes) (mac : Option (List UInt8)) (hf : finish s macFn = .ok (m, mac)) (hsz : m.size ≤ 65535) :
     ∃ (d : Message.Decoded) (qs : List QItC) (ian ins iar : List RItC), Message.specDecodeMsg m = some d ∧
       d.msg.header = specHeader s.octets ∧
@@ -517,7 +517,10 @@ theorem finish_refines (macFn : Tsig → List UInt8 → List UInt8) (s : State) 
       iar.map (·.r) = b.ar ++ optRecs' s.edns ++ tsigRecs s.tsig mac ∧
       All2 MQMatch qs d.msg.questions ∧ All2 MRecMatch ian d.msg.answers ∧
       All2 MRecMatch ins d.msg.authorities ∧ All2 MRecMatch iar d.msg.additionals ∧
-      (∀ it ∈ qs, P it.m) ∧ ∀ it ∈ ian ++ ins ++ iar, P it.m := by
+      (∀ it ∈ qs, P it.m) ∧ (∀ it ∈ ian ++ ins ++ iar, P it.m) ∧
+      qs.map (·.m) = mb.qs ∧ ian.map (·.m) = mb.an ∧ ins.map (·.m) = mb.ns ∧
+      iar.map (·.m) = mb.ar ++ (optRecs' s.edns).map (fun _ => s.mode) ++
+        (tsigRecs s.tsig mac).map (fun _ => s.mode) := by
   unfold finish at hf
   cases hw : finishWithMac macFn s with
   | mk r sF =>
@@ -535,8 +538,8 @@ theorem finish_refines (macFn : Tsig → List UInt8 → List UInt8) (s : State) 
       have hcF : sF.cursor ≤ sF.octets.size := by omega
       have hmsz : m.size = sF.cursor := by rw [← hm, hlc]; exact extract_size _ _ hcF
       have hle : sF.cursor ≤ 65535 := by omega
-      obtain ⟨wF, _, hhdr, hcnt, qs, rs, hq, hr, hqm, hrm, hqP, hrP⟩ :=
-        finishWithMac_finLayC macFn s b hI hL len mc sF hw hle
+      obtain ⟨wF, _, hhdr, hcnt, qs, rs, hq, hr, hqm, hrm, hqP, hrP, hqM, hrM⟩ :=
+        finishWithMac_finLayC macFn s b mb hI hL len mc sF hw hle
       rw [hlc] at hm
       subst hm
       have hsz' := extract_size sF.octets sF.cursor hcF
@@ -588,6 +591,13 @@ theorem finish_refines (macFn : Tsig → List UInt8 → List UInt8) (s : State) 
       obtain ⟨hb1, hb2⟩ := map_take_eq (·.r) (rs.take (b.an ++ b.ns).length) b.an b.ns ha1
       have hanl : b.an.length = s.ancount := hL.an.symm
       have hnsl : b.ns.length = s.nscount := hL.ns.symm
+      obtain ⟨ml1, ml2, _⟩ := hL.ml
+      obtain ⟨hm1, hm2⟩ := map_take_eq (·.m) rs (mb.an ++ mb.ns)
+        (mb.ar ++ (optRecs' s.edns).map (fun _ => s.mode) ++ (tsigRecs s.tsig mc).map (fun _ => s.mode))
+        (by rw [hrM]; try simp [List.append_assoc])
+      obtain ⟨hn1, hn2⟩ := map_take_eq (·.m) (rs.take (mb.an ++ mb.ns).length) mb.an mb.ns hm1
+      have hmanl : mb.an.length = s.ancount := by rw [ml1]; exact hanl
+      have hmnsl : mb.ns.length = s.nscount := by rw [ml2]; exact hnsl
       -- the three record sections
       obtain ⟨la, p2, a2, hda, hma, hch2⟩ := decodeRecordsM_chainC sF wF _ _ _ hr (Nat.le_refl _) hst s.ancount
         (by omega) [] a1
@@ -626,7 +636,7 @@ theorem finish_refines (macFn : Tsig → List UInt8 → List UInt8) (s : State) 
           · rcases List.mem_append.mp hx with hx | hx
             · exact hrP it (List.mem_of_mem_take hx)
             · exact hrP it (List.mem_of_mem_drop (List.mem_of_mem_take hx))
-          · exact hrP it (List.mem_of_mem_drop (List.mem_of_mem_drop hx))⟩
+          · exact hrP it (List.mem_of_mem_drop (List.mem_of_mem_drop hx)), hqM, ?_, ?_, ?_⟩
       · unfold Message.specDecodeMsg
         rw [if_neg (by rw [hsz']; omega)]
         simp only [e4, e6, e8, e10, hdq, hda, hdn, hdr]
@@ -644,6 +654,16 @@ theorem finish_refines (macFn : Tsig → List UInt8 → List UInt8) (s : State) 
         have : rs.drop (b.an ++ b.ns).length = (rs.drop s.ancount).drop s.nscount := by
           rw [List.drop_drop, List.length_append, hanl, hnsl]
         rw [← this]; exact ha2
+      · -- the modes of the answers
+        have : (rs.take (mb.an ++ mb.ns).length).take mb.an.length = rs.take s.ancount := by
+          rw [List.take_take, List.length_append, hmanl]; congr 1; omega
+        rw [← this]; exact hn1
+      · have : (rs.take (mb.an ++ mb.ns).length).drop mb.an.length = (rs.drop s.ancount).take s.nscount := by
+          rw [List.drop_take, List.length_append, hmanl, hmnsl]; congr 1; omega
+        rw [← this]; exact hn2
+      · have : rs.drop (mb.an ++ mb.ns).length = (rs.drop s.ancount).drop s.nscount := by
+          rw [List.drop_drop, List.length_append, hmanl, hmnsl]
+        rw [← this]; exact hm2
 
 
 /-! ### stated on the questions and records given -/
@@ -691,6 +711,76 @@ theorem questions_of_items {ex : Prop} {its : List QItC} {dqs : List Message.Que
     (hP : ∀ it ∈ its, ex → it.m ≠ .standard) : All2 (QuestionIs ex) (its.map (·.q)) dqs :=
   all2_map_left (·.q) h (fun it hit _ ⟨h1, h2, h3, h4⟩ => ⟨h1, fun x => h2 (hP it hit x), h3, h4⟩)
 
+/-- pair every item given with the mode it was written in -/
+theorem records_of_items_modes {its : List RItC} {drs : List Message.Record} (h : All2 MRecMatch its drs) :
+    All2 (fun (x : CMode × RRec) dr => RecordIs (x.1 ≠ .standard) x.2 dr) ((its.map (·.m)).zip (its.map (·.r))) drs := by
+  induction h with
+  | nil => exact .nil
+  | cons hr _ ih => exact .cons hr ih
+
+theorem questions_of_items_modes {its : List QItC} {dqs : List Message.Question} (h : All2 MQMatch its dqs) :
+    All2 (fun (x : CMode × QRec) dq => QuestionIs (x.1 ≠ .standard) x.2 dq) ((its.map (·.m)).zip (its.map (·.q))) dqs := by
+  induction h with
+  | nil => exact .nil
+  | cons hr _ ih => exact .cons hr ih
+
+/-- **C12 (d), every compression mode, item by item.** As `refines_all_modes` below, with every
+    question and record compared in the compression mode that was in effect when it was written
+    (`mrun`; the OPT and TSIG records: the mode in effect at `finish`): octet for octet unless that
+    mode was `Standard`, up to ASCII case if it was. This is the comparison the executable
+    specification `checkSegment` makes (`itemModes`). -/
+theorem refines_item_modes (macFn : Tsig → List UInt8 → List UInt8) (hmac : MacLenOK macFn)
+    (buf : Bytes) (limit : Nat) (s0 : State) (hnew : Writer.new buf limit = .ok s0) (mode : CMode)
+    (ops : List Op) (ht : ∀ op ∈ ops, op.Typed) (hr : Respects { w := { s0 with mode := mode } } ops) :
+    ∃ m mac, finish (run { w := { s0 with mode := mode } } ops).1.w macFn = .ok (m, mac) ∧ (m.size ≤ 65535 →
+      ∃ d : Message.Decoded, Message.specDecodeMsg m = some d ∧
+        d.msg.header = specHeader (run { w := { s0 with mode := mode } } ops).1.w.octets ∧
+        All2 (fun (x : CMode × QRec) dq => QuestionIs (x.1 ≠ .standard) x.2 dq)
+          ((mrun { w := { s0 with mode := mode } } {} ops).qs.zip
+            (bodyRun {} ops (run { w := { s0 with mode := mode } } ops).2).qs) d.msg.questions ∧
+        All2 (fun (x : CMode × RRec) dr => RecordIs (x.1 ≠ .standard) x.2 dr)
+          ((mrun { w := { s0 with mode := mode } } {} ops).an.zip
+            (bodyRun {} ops (run { w := { s0 with mode := mode } } ops).2).an) d.msg.answers ∧
+        All2 (fun (x : CMode × RRec) dr => RecordIs (x.1 ≠ .standard) x.2 dr)
+          ((mrun { w := { s0 with mode := mode } } {} ops).ns.zip
+            (bodyRun {} ops (run { w := { s0 with mode := mode } } ops).2).ns) d.msg.authorities ∧
+        All2 (fun (x : CMode × RRec) dr => RecordIs (x.1 ≠ .standard) x.2 dr)
+          (((mrun { w := { s0 with mode := mode } } {} ops).ar ++
+              (optRecs' (run { w := { s0 with mode := mode } } ops).1.w.edns).map
+                (fun _ => (run { w := { s0 with mode := mode } } ops).1.w.mode) ++
+              (tsigRecs (run { w := { s0 with mode := mode } } ops).1.w.tsig mac).map
+                (fun _ => (run { w := { s0 with mode := mode } } ops).1.w.mode)).zip
+            ((bodyRun {} ops (run { w := { s0 with mode := mode } } ops).2).ar ++
+              optRecs' (run { w := { s0 with mode := mode } } ops).1.w.edns ++
+              tsigRecs (run { w := { s0 with mode := mode } } ops).1.w.tsig mac)) d.msg.additionals) := by
+  have hI0 : I { s0 with mode := mode } := (safe_setMode mode s0 (new_i buf limit s0 hnew)).2
+  have hL0 : CLay (fun _ => True) { s0 with mode := mode } {} {} := clay_new buf limit s0 hnew mode trivial
+  have hI := (run_I { w := { s0 with mode := mode } } ops hI0 hr).2
+  have hL := clay_run { w := { s0 with mode := mode } } ops {} {} hI0 hL0 hr (fun _ _ => trivial)
+  have hT := typed_run ops { w := { s0 with mode := mode } } {}
+    ⟨(fun _ h => by cases h), (fun _ h => by cases h), (fun _ h => by cases h), (fun _ h => by cases h)⟩ ht
+  generalize (run { w := { s0 with mode := mode } } ops).1.w = sF at hI hL ⊢
+  generalize bodyRun {} ops (run { w := { s0 with mode := mode } } ops).2 = B at hL hT ⊢
+  generalize mrun { w := { s0 with mode := mode } } {} ops = MB at hL ⊢
+  obtain ⟨m, mac, hf⟩ := finish_ok macFn hmac sF hI
+  refine ⟨m, mac, hf, fun hsz => ?_⟩
+  have hst : ∀ r ∈ B.an ++ B.ns ++ B.ar, LayoutStable r := by
+    intro r hx
+    have hr : r.Typed := by
+      rcases List.mem_append.mp hx with h1 | h1
+      · rcases List.mem_append.mp h1 with h2 | h2
+        · exact hT.an r h2
+        · exact hT.ns r h2
+      · exact hT.ar r h1
+    exact layoutStable_of_lt hr.2.1 hr.2.2.1
+  obtain ⟨d, qs, ian, ins, iar, hd, hh, hq, han, hns, har, mq, ma, mn, mr, _, _, hqM, haM, hnM, hrM⟩ :=
+    finish_refines macFn sF B MB hI hL hst m mac hf hsz
+  refine ⟨d, hd, hh, ?_, ?_, ?_, ?_⟩
+  · rw [← hq, ← hqM]; exact questions_of_items_modes mq
+  · rw [← han, ← haM]; exact records_of_items_modes ma
+  · rw [← hns, ← hnM]; exact records_of_items_modes mn
+  · rw [← har, ← hrM]; exact records_of_items_modes mr
+
 /-- **C12 (d), every compression mode, for all sequences of calls.** From a fresh writer put into any
     mode, after any sequence of public calls (16-bit types and classes; hint contract respected) with
     any mode changes: `finish` succeeds and its message (if at most 65535 octets), read by the
@@ -712,10 +802,10 @@ theorem refines_all_modes (macFn : Tsig → List UInt8 → List UInt8) (hmac : M
           optRecs' (run { w := { s0 with mode := mode } } ops).1.w.edns ++
           tsigRecs (run { w := { s0 with mode := mode } } ops).1.w.tsig mac) d.msg.additionals) := by
   have hI0 : I { s0 with mode := mode } := (safe_setMode mode s0 (new_i buf limit s0 hnew)).2
-  have hL0 : CLay (fun m => ex → m ≠ .standard) { s0 with mode := mode } {} :=
+  have hL0 : CLay (fun m => ex → m ≠ .standard) { s0 with mode := mode } {} {} :=
     clay_new buf limit s0 hnew mode (fun x => (hex x).1)
   have hI := (run_I { w := { s0 with mode := mode } } ops hI0 hr).2
-  have hL := clay_run { w := { s0 with mode := mode } } ops {} hI0 hL0 hr (fun m hm x => (hex x).2 m hm)
+  have hL := clay_run { w := { s0 with mode := mode } } ops {} {} hI0 hL0 hr (fun m hm x => (hex x).2 m hm)
   have hT := typed_run ops { w := { s0 with mode := mode } } {}
     ⟨(fun _ h => by cases h), (fun _ h => by cases h), (fun _ h => by cases h), (fun _ h => by cases h)⟩ ht
   generalize (run { w := { s0 with mode := mode } } ops).1.w = sF at hI hL ⊢
@@ -731,8 +821,9 @@ theorem refines_all_modes (macFn : Tsig → List UInt8 → List UInt8) (hmac : M
         · exact hT.ns r h2
       · exact hT.ar r h1
     exact layoutStable_of_lt hr.2.1 hr.2.2.1
-  obtain ⟨d, qs, ian, ins, iar, hd, hh, hq, han, hns, har, mq, ma, mn, mr, pq, pr⟩ :=
-    finish_refines macFn sF B hI hL hst m mac hf hsz
+  generalize mrun { w := { s0 with mode := mode } } {} ops = MB at hL
+  obtain ⟨d, qs, ian, ins, iar, hd, hh, hq, han, hns, har, mq, ma, mn, mr, pq, pr, _⟩ :=
+    finish_refines macFn sF B MB hI hL hst m mac hf hsz
   refine ⟨d, hd, hh, ?_, ?_, ?_, ?_⟩
   · rw [← hq]; exact questions_of_items mq pq
   · rw [← han]; exact records_of_items ma (fun it hx => pr it (List.mem_append_left _ (List.mem_append_left _ hx)))
@@ -973,5 +1064,187 @@ theorem session_size_le (macFn : Tsig → List UInt8 → List UInt8) (buf : Byte
   have hl := run_limit { w := { s0 with mode := mode } } ops hI0 hr (new_limit buf limit s0 hnew hlim) hv
   have := finish_size_le_limit macFn _ hI.inv m mac hf
   omega
+
+
+/-! ### the compression mode of a session, without reference to the model's state
+
+  The writer's mode is changed by `set_compression_mode` only (`step_mode`), so the mode each item
+  was written in (`mrun`) is a function of the initial mode, the calls and their results
+  (`modesRun`). -/
+
+def modeAfter (cur : CMode) : Op → CMode
+  | .setMode m => m
+  | _ => cur
+
+theorem template_mode {s s' : State} {t : Template} (buf : Bytes) (ts : Option Tsig) (hI : I s)
+    (ht : intoTemplate s = .ok t) (h' : tryFromTemplateImpl buf t ts = .ok s') : s'.mode = s.mode := by
+  have hi := hI.inv
+  have h1 := hi.hdr; have h2 := hi.cur_av; have h3 := hi.av_lim; have h4 := hi.lim_size
+  unfold intoTemplate at ht
+  rw [if_neg (by omega), if_neg (by omega)] at ht
+  cases ht
+  unfold tryFromTemplateImpl at h'
+  simp only at h'
+  split at h'
+  · cases h'
+  · split at h'
+    · cases h'
+    · cases h'; rfl
+
+theorem retemplate_mode {ss : Session} (hI : I ss.w) (n : Nat) (fill : UInt8)
+    (mk : Bytes → Template → Out WriterErr State) (hmk : MkOK mk) :
+    (retemplate ss n fill mk).2.w.mode = ss.w.mode := by
+  obtain ⟨t, ht⟩ := intoTemplate_ok hI.inv
+  unfold retemplate
+  rw [ht]
+  simp only []
+  obtain ⟨sf, hsf⟩ := tryFromTemplate_fallback_ok fill hI.inv ht
+  have hlf : sf.mode = ss.w.mode := template_mode _ t.tsig hI ht hsf
+  cases hm : mk (Array.replicate n fill) t with
+  | ok s' =>
+    simp only []
+    obtain ⟨ts, h1, _⟩ := hmk.1 _ _ _ hm
+    exact template_mode _ ts hI ht h1
+  | err e => simp only []; rw [hsf]; exact hlf
+  | panic => simp only []; rw [hsf]; exact hlf
+
+theorem addRrOp_mode (sec : RrSection) (h : Hint) (o : WName) (ty cls ttl : Nat) (rd : List UInt8) (s : State) :
+    (addRrOp sec h o ty cls ttl rd s).2.mode = s.mode := by
+  have hc := addRrOp_cases sec h o ty cls ttl rd s
+  cases hr : addRrOp sec h o ty cls ttl rd s with
+  | mk r s' =>
+    rw [hr] at hc
+    cases r with
+    | ok u => obtain ⟨s1, e, _, rfl⟩ := hc; rw [← e.mode]; cases sec <;> rfl
+    | err e => exact hc.mode
+    | panic => exact hc.mode
+
+theorem addRrsetOp_mode (sec : RrSection) (h : Hint) (o : WName) (ty cls ttl : Nat) (rds : List (List UInt8))
+    (s : State) : (addRrsetOp sec h o ty cls ttl rds s).2.mode = s.mode := by
+  have hc := addRrsetOp_cases sec h o ty cls ttl rds s
+  cases hr : addRrsetOp sec h o ty cls ttl rds s with
+  | mk r s' =>
+    rw [hr] at hc
+    cases r with
+    | ok u => obtain ⟨s1, n, e, _, rfl⟩ := hc; rw [← e.mode]; cases sec <;> rfl
+    | err e => exact hc.mode
+    | panic => exact hc.mode
+
+theorem addQuestion_mode (qn : WName) (qt qc : Nat) (s : State) : (addQuestion qn qt qc s).2.mode = s.mode := by
+  have hc := addQuestion_cases qn qt qc s
+  cases hr : addQuestion qn qt qc s with
+  | mk r s' =>
+    rw [hr] at hc
+    cases r with
+    | ok u => obtain ⟨s1, e, _, rfl⟩ := hc; exact e.mode
+    | err e => exact hc.mode
+    | panic => exact hc.mode
+
+/-- **only `set_compression_mode` changes the mode** -/
+theorem step_mode (ss : Session) (op : Op) (hI : I ss.w) : (step ss op).2.w.mode = modeAfter ss.w.mode op := by
+  have lw : ∀ {f : M Unit}, (∀ s, HdrOnly s (f s).2) → (liftW ss f).2.w.mode = ss.w.mode := fun hf => by
+    rw [liftW_w]; exact (hf ss.w).mode
+  cases op with
+  | setId v => exact lw (hdrOnly_write _ _ (by show _ + 2 ≤ 12; decide))
+  | setQr b' => exact lw (hdrOnly_setHdr _ _ (by decide))
+  | setAa b' => exact lw (hdrOnly_setHdr _ _ (by decide))
+  | setTc b' => exact lw (hdrOnly_setHdr _ _ (by decide))
+  | setRd b' => exact lw (hdrOnly_setHdr _ _ (by decide))
+  | setRa b' => exact lw (hdrOnly_setHdr _ _ (by decide))
+  | setOpcode v => exact lw (hdrOnly_setHdr _ _ (by decide))
+  | setRcode v => exact lw (hdrOnly_setRcode v)
+  | setExtendedRcode v => exact lw (f := setExtendedRcode v) (hdrOnly_setExtendedRcode v)
+  | setLimit v => exact lw (hdrOnly_setLimit v)
+  | setMode m => show (liftW ss (setCompressionMode m)).2.w.mode = m; rw [liftW_w]; rfl
+  | addQuestion n t c => show (liftW ss (addQuestion n t c)).2.w.mode = _; rw [liftW_w]; exact addQuestion_mode n t c ss.w
+  | addRr sec hn o ty cls ttl rd hv =>
+    simp only [step]
+    rw [withHv_w]
+    exact addRrOp_mode sec _ o ty cls ttl rd _
+  | addRrset sec hn o ty cls ttl rds hv =>
+    simp only [step]
+    rw [withHv_w]
+    exact addRrsetOp_mode sec _ o ty cls ttl rds _
+  | clearRrs => show (liftW ss clearRrs).2.w.mode = _; rw [liftW_w]; rfl
+  | setEdns p =>
+    show (liftW ss (setEdns p)).2.w.mode = _
+    rw [liftW_w]
+    unfold setEdns
+    repeat' split
+    all_goals rfl
+  | setTsig m rr =>
+    show (liftW ss (setTsig m rr)).2.w.mode = _
+    rw [liftW_w]
+    unfold setTsig
+    repeat' split
+    all_goals rfl
+  | updateTimeSigned t => exact lw (hdrOnly_updateTimeSigned t)
+  | template n fill => exact retemplate_mode hI n fill _ mkOK_tryFromTemplate
+  | templateSubsequent n fill mac => exact retemplate_mode hI n fill _ (mkOK_subsequent mac)
+  | getters => rfl
+
+/-- the mode each question / record was written in, from the initial mode, the calls and their
+    results alone -/
+def modesRun (cur : CMode) (mb : MBody) : List Op → List (Out WriterErr Unit) → MBody
+  | op :: ops, r :: rs =>
+    modesRun (modeAfter cur op) (if r = .ok () then mbodyStep cur mb op else mb) ops rs
+  | _, _ => mb
+
+theorem mrun_eq_modesRun (ss : Session) (ops : List Op) (mb : MBody) (hI : I ss.w) (hr : Respects ss ops) :
+    mrun ss mb ops = modesRun ss.w.mode mb ops (run ss ops).2 := by
+  induction ops generalizing ss mb with
+  | nil => rfl
+  | cons op ops ih =>
+    obtain ⟨hop, hrest⟩ := hr
+    obtain ⟨hnp, hI'⟩ := step_I ss op hI hop
+    have hmode := step_mode ss op hI
+    unfold mrun run
+    cases hs : step ss op with
+    | mk r ss' =>
+      rw [hs] at hnp hI' hrest hmode
+      cases r with
+      | panic => exact absurd rfl hnp
+      | ok u =>
+        simp only [] at hmode ⊢
+        have := ih ss' (mbodyStep ss.w.mode mb op) hI' hrest
+        cases hrun : run ss' ops with
+        | mk ss'' rs =>
+          rw [hrun] at this
+          simp only [modesRun, if_true]
+          rw [this, hmode]
+      | err e =>
+        simp only [] at hmode ⊢
+        have := ih ss' mb hI' hrest
+        cases hrun : run ss' ops with
+        | mk ss'' rs =>
+          rw [hrun] at this
+          simp only [modesRun, reduceCtorEq, if_false]
+          rw [this, hmode]
+
+
+theorem run_mode (ss : Session) (ops : List Op) (hI : I ss.w) (hr : Respects ss ops) :
+    (run ss ops).1.w.mode = ops.foldl modeAfter ss.w.mode := by
+  induction ops generalizing ss with
+  | nil => rfl
+  | cons op ops ih =>
+    obtain ⟨hop, hrest⟩ := hr
+    obtain ⟨hnp, hI'⟩ := step_I ss op hI hop
+    have hmode := step_mode ss op hI
+    unfold run
+    cases hs : step ss op with
+    | mk r ss' =>
+      rw [hs] at hnp hI' hrest hmode
+      cases r with
+      | panic => exact absurd rfl hnp
+      | ok u =>
+        simp only [] at hmode ⊢
+        have := ih ss' hI' hrest
+        cases hrun : run ss' ops with
+        | mk ss'' rs => rw [hrun] at this; simp only [List.foldl_cons]; rw [this, hmode]
+      | err e =>
+        simp only [] at hmode ⊢
+        have := ih ss' hI' hrest
+        cases hrun : run ss' ops with
+        | mk ss'' rs => rw [hrun] at this; simp only [List.foldl_cons]; rw [this, hmode]
 
 end QV.Writer
